@@ -258,8 +258,16 @@ class Engine:
         return False
 
     def _reader_callees_of_read(self):
+        """Reader methods `read` calls, directly or through other reader methods (an extracted per-frame helper)."""
         q = f"{self.reader_cls}.read"
-        return [c for c in self.res.callees(q) if c.startswith(self.reader_cls + ".")]
+        seen, todo = [], [q]
+        while todo:
+            x = todo.pop()
+            for c in sorted(self.res.callees(x)):
+                if c.startswith(self.reader_cls + ".") and c != q and c not in seen:
+                    seen.append(c)
+                    todo.append(c)
+        return seen
 
     @cached_property
     def frame_assembler(self) -> str:
@@ -330,6 +338,13 @@ class Engine:
         reach = self.res.reachable([f"{self.message_cls}.__init__"])
         comps = [c for c in self.res.sccs(reach) if len(c) > 1 or any(q in self.res.callees(q) for q in c)]
         comps = [c for c in comps if all(q.startswith(self.message_cls) for q in c)]
+        if len(comps) > 1:
+            # the decoder cycle is the one that stores fields (it calls the single-field routine); a recursive helper that only measures or
+            # inspects the definitions is a cycle of its own (C04-D3 looks at those)
+            sfr = self.single_field_routine
+            main = [c for c in comps if any(sfr in self.res.callees(q) for q in c)]
+            if len(main) == 1:
+                return main[0]
         if len(comps) != 1:
             raise AnalysisError(f"role 'decoder cycle': {len(comps)} recursion cycles reachable from the constructor")
         return comps[0]
@@ -346,7 +361,12 @@ class Engine:
 
     @cached_property
     def single_field_routine(self) -> str:
-        return self._one("single-field routine", self._methods_subscripting(self.message_cls, "RTCM_DATA_FIELDS"))
+        c = self._methods_subscripting(self.message_cls, "RTCM_DATA_FIELDS")
+        if len(c) > 1:
+            # the routine that decodes a field stores it; other readers of the field table (size calculators, describers) do not
+            stores = [q for q in c if any(isinstance(n, ast.Call) and isinstance(n.func, ast.Name) and n.func.id == "setattr" for n in walk_no_nested(self.repo.func(q).node))]
+            c = stores or c
+        return self._one("single-field routine", c)
 
     @cached_property
     def map_builder(self) -> str:
